@@ -14,13 +14,13 @@ CONSTANTS MaxLen, Defect
 Ops == {"quantise", "quantise_note_lengths", "normalise", "quantise_and_normalise", "pad", "cutoff", "scale", "scale_requantise",
         "transpose", "transpose_wrap", "set_channel", "merge", "concatenate", "split_rejoin", "copy",
         "bar_construct", "bars_roundtrip", "bars_roundtrip_requantise", "composition_roundtrip", "token_roundtrip",
-        "save_load", "quantise_helper_grid", "note_lengths_helper_grid"}
+        "save_load", "quantise_helper_grid", "note_lengths_helper_grid", "token_roundtrip_plain"}
 (* the *_helper_grid operations take their step sizes / note values from the library's own duration helpers
    (get_default_step_sizes, get_note_durations, get_tuplet_durations, get_dotted_note_durations) with integer arguments
    other than the defaults *)
 (* operations that build bars pad short sequences to the bar length *)
 BarBuilding == {"bar_construct", "bars_roundtrip", "bars_roundtrip_requantise", "composition_roundtrip", "token_roundtrip"}
-Tokenising == {"token_roundtrip"}
+Tokenising == {"token_roundtrip", "token_roundtrip_plain"}
 
 VARIABLES kinds, tokenKinds, hist
 vars == <<kinds, tokenKinds, hist>>
